@@ -17,6 +17,7 @@ pub struct MemOperand {
 
 #[derive(Debug, Copy, Clone, PartialEq, Eq)]
 pub enum SupportedSegmentRegister {
+    CS,
     DS,
     ES,
     SS,
@@ -29,6 +30,8 @@ impl TryFrom<iced_x86::Register> for SupportedSegmentRegister {
 
     fn try_from(value: iced_x86::Register) -> Result<Self, Self::Error> {
         match value {
+            // A CS override is accepted and ignored in 64-bit mode (its base is zero)
+            iced_x86::Register::CS => Ok(SupportedSegmentRegister::CS),
             iced_x86::Register::DS => Ok(SupportedSegmentRegister::DS),
             iced_x86::Register::ES => Ok(SupportedSegmentRegister::ES),
             iced_x86::Register::SS => Ok(SupportedSegmentRegister::SS),
@@ -113,6 +116,16 @@ impl From<Operand> for u64 {
                 data
             }
             _ => panic!("Cannot convert operand to u64"),
+        }
+    }
+}
+
+impl MemOperand {
+    /// The same operand without its segment override (LEA computes the offset only)
+    pub(crate) fn without_segment(self) -> Self {
+        Self {
+            segment: None,
+            ..self
         }
     }
 }
